@@ -7,6 +7,7 @@
   (see the `C04_fault_*` theorems at the end and notes/C04.md).
 -/
 import KiraModel.Proofs.TransportLemmas
+import KiraModel.Proofs.StaticLemmas
 
 namespace K
 open Transport
@@ -220,5 +221,124 @@ theorem C04_transport_new (start n : Nat) (lr : Option (Nat × Nat)) (rev : Bool
 /-- non-vacuity: a 5-frame sound looping [1,4) walks 0 1 2 3 1 2 3 … -/
 example : Transport.applyAll ⟨0, some (1, 4), true⟩ 5 [.inc, .inc, .inc, .inc, .inc] = .ok ⟨2, some (1, 4), true⟩ := by
   rfl
+
+/-! ### Hermite interpolation -/
+
+/-- **the interpolator interpolates**: at fraction 0 it returns the `current` frame exactly, at
+    fraction 1 the `next` frame exactly (so consecutive output frames join up, and at rate 1 the output
+    *is* the source). -/
+theorem C04_hermite_interpolates (p c n1 n2 : Frame ℝ) :
+    interpolateFrame p c n1 n2 0 = c ∧ interpolateFrame p c n1 n2 1 = n1 :=
+  ⟨interpolateFrame_zero p c n1 n2, interpolateFrame_one p c n1 n2⟩
+
+/-- it reproduces every polynomial of degree ≤ 2 sampled at −1, 0, 1, 2 exactly, at every fraction
+    (in particular constants and ramps pass through unchanged). -/
+theorem C04_hermite_reproduces_quadratics (a b c x : ℝ) :
+    hermite (a * (-1) ^ 2 + b * (-1) + c) c (a + b + c) (a * 2 ^ 2 + b * 2 + c) x = a * x ^ 2 + b * x + c := by
+  unfold hermite; ring
+
+/-- … but not cubics (DESIGN.md said "reproduces cubics"; that is false of this 4-point, 3rd-order
+    Hermite kernel — it is Catmull-Rom, exact to degree 2): `x³` at `x = 1/4`. -/
+theorem C04_hermite_not_cubics : hermite ((-1) ^ 3) 0 1 (2 ^ 3) (1 / 4) ≠ (1 / 4 : ℝ) ^ 3 := by
+  unfold hermite; norm_num
+
+/-! ### the slice -/
+
+/-- **never reads outside the slice**: with the slice inside the data, a lookup never faults; for an
+    index inside the sound it returns exactly the data frame at `slice start + index`, which lies in
+    `[slice start, slice end)`; for any other index it returns nothing (the caller substitutes
+    silence) — never a frame from outside the slice. -/
+theorem C04_never_outside_slice (s : StaticSound ℝ) (h : s.SliceOk) (i : Nat) :
+    (i < s.nFrames → ∃ f, frameAtIndex i s.frames s.slice = .ok (some f) ∧ s.frames[i + s.sliceStart]? = some f
+        ∧ s.sliceStart ≤ i + s.sliceStart ∧ i + s.sliceStart < s.sliceStart + s.nFrames)
+    ∧ (s.nFrames ≤ i → frameAtIndex i s.frames s.slice = .ok none) := by
+  refine ⟨fun hi => ?_, (StaticSound.frameAtIndex_ok s h i).2⟩
+  obtain ⟨f, h1, h2, _⟩ := (StaticSound.frameAtIndex_ok s h i).1 hi
+  exact ⟨f, h1, h2, by omega, by omega⟩
+
+/-- what enters the interpolator's window is the source frame under the play head, or silence. -/
+theorem C04_pushed_frame_is_source (s : StaticSound ℝ) (h : s.SliceOk) :
+    StaticSound.pushedFrame s = StaticSound.sourceAt s s.transport :=
+  StaticSound.pushedFrame_eq s h
+
+/-- **in-domain sounds never fault**: slice inside the data and a valid (or no) loop region: any
+    number of position steps succeeds. -/
+theorem C04_in_domain_never_faults (s : StaticSound ℝ) (h : s.InDomain) (k : Nat) :
+    ∃ s', StaticSound.updN k s = .ok s' ∧ s'.InDomain :=
+  StaticSound.updN_total k s h
+
+/-! ### position accumulation and resampling -/
+
+/-- **the `while fractional_position >= 1.0` loop, closed form and fuel independence**: for every
+    fuel above `⌊frac⌋` it performs exactly `⌊frac⌋` position steps and leaves the fractional part. -/
+theorem C04_step_loop_closed_form (fuel : Nat) (s : StaticSound ℝ) (h0 : 0 ≤ s.frac) (hf : ⌊s.frac⌋₊ < fuel) :
+    StaticSound.stepPos fuel s
+      = (StaticSound.updN ⌊s.frac⌋₊ s).map (StaticSound.setFrac (s.frac - (⌊s.frac⌋₊ : ℝ))) :=
+  StaticSound.stepPos_spec fuel s h0 hf
+
+/-- **every output frame is the Hermite interpolation of the 4-frame window at the current
+    fraction** (then shaded by fade, volume and panning), after which the position advances by
+    `⌊frac + sr·|rate|·dt⌋` frames and the fractional part is kept. -/
+theorem C04_output_is_hermite (fuel : Nat) (s : StaticSound ℝ) (t dt : ℝ)
+    (h0 : 0 ≤ s.frac + s.fracStep t dt) (hf : ⌊s.frac + s.fracStep t dt⌋₊ < fuel) :
+    StaticSound.renderFrame fuel s t dt
+      = (StaticSound.updN ⌊s.frac + s.fracStep t dt⌋₊ s).map (fun s' =>
+          (StaticSound.setFrac (s.frac + s.fracStep t dt - (⌊s.frac + s.fracStep t dt⌋₊ : ℝ)) s',
+           s.shade t (interpolateFrame s.resampler.f0.frame s.resampler.f1.frame s.resampler.f2.frame
+             s.resampler.f3.frame s.frac))) :=
+  StaticSound.renderFrame_spec fuel s t dt h0 hf
+
+/-- **position accumulation at a constant rate**: with the playback rate resting at `r`, after `k`
+    output frames of one `process` call the sound has taken exactly `⌊frac₀ + k·sr·|r|·dt⌋` position
+    steps and its fractional position is the fractional part of that number — for every `k`, every
+    buffer length and every fuel above the step count (faults, if any, included: both sides fail
+    identically). -/
+theorem C04_position_accumulates (fuel : Nat) (dt r : ℝ) (len k i : Nat) (s : StaticSound ℝ)
+    (hr : s.playbackRate.Rests r) (hdt : 0 ≤ dt) (h0 : 0 ≤ s.frac) (h1 : s.frac < 1)
+    (hfuel : ⌊s.frac + k * ((s.sampleRate : ℝ) * |r| * dt)⌋₊ < fuel) :
+    (StaticSound.renderLoop fuel dt len k i s).map Prod.fst
+      = (StaticSound.updN ⌊s.frac + k * ((s.sampleRate : ℝ) * |r| * dt)⌋₊ s).map
+          (StaticSound.setFrac (s.frac + k * ((s.sampleRate : ℝ) * |r| * dt)
+            - (⌊s.frac + k * ((s.sampleRate : ℝ) * |r| * dt)⌋₊ : ℝ))) := by
+  apply StaticSound.renderLoop_steps fuel dt len _ (by positivity) k i s
+    (fun t => StaticSound.fracStep_rests s r t dt hr) h0 h1 hfuel
+
+/-! ### rate 1: the output *is* the source -/
+
+/-- **rate-1 identity, no latency, any buffer partition, loops and reverse included.**
+    A sound built with neutral settings (0 dB, centre, no fade-in, immediate start) and a fixed rate
+    `r` with `sr·|r|·dt = 1` (rate ±1 on a device at the sound's sample rate), slice inside the
+    data and a valid (or no) loop region.  For *every* partition of time into `process` calls, the
+    `j`-th frame written to the output is *exactly* the source frame under the play head after `j`
+    steps of the transport from its start position (`walk`: forwards or backwards, wrapping at the
+    loop), starting with the start position itself at `j = 0` — and exact silence once the transport
+    has ended. -/
+theorem C04_rate1_identity (fuel : Nat) (hfuel : 2 ≤ fuel) (d : StaticSoundData ℝ) (r dt : ℝ)
+    (hn : StaticSound.NeutralSettings d r) (s0 s : StaticSound ℝ) (h0 : StaticSound.init d = .ok s0)
+    (hdom : s0.InDomain) (hnew : StaticSound.new d = .ok s)
+    (hunit : (d.sampleRate : ℝ) * |r| * dt = 1) (info : Info ℝ) (lens : List Nat)
+    (s' : StaticSound ℝ) (outs : List (Frame ℝ))
+    (hrun : s.run fuel (StaticSound.chunkOps dt info lens) = .ok (s', outs)) :
+    outs.length = lens.sum ∧
+      ∀ j, j < lens.sum → ∃ tj, StaticSound.walk s0.isPlayingBackwards s0.nFrames j s0.transport = .ok tj
+        ∧ outs[j]? = some (StaticSound.sourceAt s0 tj) := by
+  obtain ⟨hg0, hr0, hst0, hfr0, hi0⟩ := StaticSound.init_neutral d r hn s0 h0
+  have h3 := StaticSound.new_eq_updN d s0 s h0 hnew
+  have hsc := StaticSound.updN_sameConfig 3 s0 s h3
+  have hsr : s0.sampleRate = d.sampleRate := by
+    obtain ⟨_, _, _, _, _, _, _, h, _⟩ := StaticSound.init_shape d s0 h0; exact h
+  obtain ⟨hl, hh⟩ := StaticSound.rate1_run fuel hfuel r dt info lens s s' outs
+    (StaticSound.neutralGain_sameConfig hsc hg0) (by rw [hsc.playbackRate]; exact hr0)
+    (by rw [hsc.startTime]; exact hst0) (by rw [hsc.frac]; exact hfr0)
+    (StaticSound.updN_endInv 3 s0 s hi0 h3) (by rw [hsc.sampleRate, hsr]; exact hunit) hrun
+  refine ⟨hl, fun j hj => ?_⟩
+  obtain ⟨sj, hsj, hdj⟩ := StaticSound.updN_total j s0 hdom
+  refine ⟨sj.transport, StaticSound.updN_transport j s0 sj hdom.1 hsj, ?_⟩
+  rw [hh j hj, StaticSound.heardAt_primed s0 s h3 j, hsj]
+  simp only []
+  have hscj := StaticSound.updN_sameConfig j s0 sj hsj
+  rw [StaticSound.pushedFrame_eq sj hdj.1]
+  unfold StaticSound.sourceAt StaticSound.nFrames StaticSound.sliceStart
+  rw [hscj.slice, hscj.frames]
 
 end K
